@@ -7,6 +7,9 @@
 //@ harness e_daystart_position kind=enum props=C15 bound=<<files aged 30 s, 1 h, 5 h, 11 h, 13 h, 23 h, 25 h, 30 h, 47 h, 49 h x tests -mtime {0, 1, +0, -1}, -mmin {+600, -600, +1500}, -atime 1 x the test alone, followed by -daystart, followed by -o ( -daystart -false ), and -daystart given only as the operand of -name>> label=<<the time tests measure from 'now' unless -daystart was given BEFORE them: a -daystart later on the command line, in a later group, or as an operand of another primary changes nothing>>
 //@ harness e_newer_t_tz kind=enum props=C11 bound=<<TZ in {UTC0, CET-1CEST,M3.5.0,M10.5.0/3, EST5EDT,M3.2.0,M11.1.0, Europe/Berlin, America/New_York, Australia/Lord_Howe} x -newermt operands naming a time inside the spring-forward gap or the fall-back overlap of those zones, and an ordinary time (7 operands); each case in a child process (TZ is process-wide)>> label=<<find ends with an ordinary exit status for every literal-time operand in every time zone - a wall-clock time that does not exist or exists twice is accepted or rejected with a diagnostic, never a panic>>
 //@ harness e_missing_root kind=enum props=C02,C18 bound=<<starting points a, b and one that does not exist (first, second or last) x -maxdepth absent, 0, 1, 2 x -mindepth absent, 0, 1, 2>> label=<<a starting point that cannot be examined yields a non-zero exit status whatever the depth window, is never itself reported, and the other starting points report exactly what they report without it>>
+//@ harness e_prune_conjunction kind=enum props=C03 bound=<<a tree r/{a/{f1,sub/f2},skip/{inside,deep/deeper/x},z/f3,top} x eight expressions in which -prune is evaluated on r/skip and followed, in the same conjunction, list, group or negation, by terms that are false, true or never reached>> label=<<-prune on a directory leaves out exactly that directory's descendants the moment it is evaluated, whatever the remaining terms of the expression yield: the output equals what the same expression with -true for -prune selects, minus everything below the pruned directory>>
+//@ harness e_argv0_as_given kind=enum props=C04,C06 bound=<<a command given as a bare name and found through a PATH directory that is short or about 1200 bytes long; one invocation in -I mode; the child reports its own argv[0]; run in a child process with its own PATH>> label=<<each invocation begins with the unchanged command: the program is started under the name given on the command line (which is what the size limiters were charged for), not under a longer resolved path>>
+//@ harness e_echo_is_a_command kind=enum props=C19 bound=<<xargs -n2 echo and xargs -n2 echo fixed on four arguments, with PATH holding only a directory where echo does not exist, exits 3, exits 255, or exits 0; run in a child process with its own PATH>> label=<<a command that is given is run for every batch and its outcomes decide the exit status (127 not found, 123, 124 and stop, 0), also when the command is called echo>>
 #[cfg(verif_replay)]
 mod verif_enum_round7 {
     use super::*;
@@ -259,4 +262,104 @@ mod verif_enum_round7 {
         assert!(ordinary, "find must end with an ordinary exit status for every operand in every time zone, never a panic");
     }
     #[test] fn e_newer_t_tz() { kani::explore(newer_t_tz_body) }
+    // ---- C03: -prune takes effect the moment it is evaluated, whatever the rest of the expression yields ----
+    fn prune_conjunction_body() {
+        let forms: [&[&str]; 8] = [
+            &["-name", "skip", "-prune", "-false", "-o", "-print0"],
+            &["-name", "skip", "-prune", "-type", "f", "-o", "-print0"],
+            &["(", "-name", "skip", "-prune", "-false", ")", ",", "-print0"],
+            &["-name", "skip", "-prune", "-o", "-print0"],
+            &["!", "(", "-name", "skip", "-prune", ")", "-print0"],
+            &["-name", "skip", "-prune", "-name", "other", "-o", "-print0"],
+            &["(", "-name", "skip", "-prune", "-o", "-true", ")", "-false", "-o", "-print0"],
+            &["-name", "skip", "(", "-prune", ",", "-false", ")", "-o", "-print0"],
+        ];
+        let form = forms[pick(8)];
+        let d = scratch("prunecj");
+        let r = d.join("r");
+        for f in ["a/f1", "a/sub/f2", "skip/inside", "skip/deep/deeper/x", "z/f3", "top"] {
+            std::fs::create_dir_all(r.join(f).parent().unwrap()).unwrap();
+            std::fs::write(r.join(f), "").unwrap();
+        }
+        let rs = r.to_str().unwrap();
+        let mut with_prune: Vec<&str> = vec!["find", rs, "-sorted"];
+        with_prune.extend_from_slice(form);
+        // the same expression with -prune replaced by -true selects the same entries (both are true and print nothing) but walks everything
+        let without: Vec<&str> = with_prune.iter().map(|&a| if a == "-prune" { "-true" } else { a }).collect();
+        let (rc1, out1) = run(&with_prune);
+        let (rc2, out2) = run(&without);
+        let _ = std::fs::remove_dir_all(&d);
+        let below = format!("{rs}/skip/");
+        let want: Vec<&[u8]> = out2.split(|&b| b == 0).filter(|s| !s.is_empty() && !s.starts_with(below.as_bytes())).collect();
+        let got: Vec<&[u8]> = out1.split(|&b| b == 0).filter(|s| !s.is_empty()).collect();
+        if got != want || rc1 != 0 || rc2 != 0 {
+            let show = |v: &Vec<&[u8]>| v.iter().map(|s| String::from_utf8_lossy(s).replace(rs, "r")).collect::<Vec<_>>();
+            eprintln!("  input find r -sorted {:?}\n  input printed  {:?}\n  input expected {:?} (what the expression selects with -true for -prune, minus everything below r/skip)", form, show(&got), show(&want));
+        }
+        assert!(got == want, "-prune on a directory leaves out exactly its descendants, whatever the terms after it yield");
+    }
+    #[test] fn e_prune_conjunction() { kani::explore(prune_conjunction_body) }
+
+    // ---- xargs cases that need their own PATH and stdin: run in a child (this test binary again, running only `inner_xargs`) ----
+    #[test] fn inner_xargs() {
+        let Ok(argv) = std::env::var("VERIF_R7_XARGS_ARGV") else { return };
+        let args: Vec<&str> = argv.split('\u{1f}').collect();
+        let rc = crate::xargs::xargs_main(&args);
+        eprintln!("VERIF-R7-INNER rc={rc}");
+    }
+    /// (exit status of xargs_main, stderr) of `xargs ARGS` with the given PATH and standard input
+    fn xargs_child(args: &[&str], path: &str, input: &[u8]) -> (Option<i32>, String) {
+        use std::io::Write;
+        let exe = std::env::current_exe().unwrap();
+        let mut ch = std::process::Command::new(&exe).args(["--exact", "find::verif_enum_round7::inner_xargs", "--nocapture", "--test-threads", "1"])
+            .env("PATH", path).env("VERIF_R7_XARGS_ARGV", args.join("\u{1f}")).stdin(std::process::Stdio::piped()).stdout(std::process::Stdio::null()).stderr(std::process::Stdio::piped()).spawn().unwrap();
+        ch.stdin.take().unwrap().write_all(input).unwrap();
+        let o = ch.wait_with_output().unwrap();
+        let err = String::from_utf8_lossy(&o.stderr).into_owned();
+        let rc = err.lines().find_map(|l| l.strip_prefix("VERIF-R7-INNER rc=").and_then(|v| v.trim().parse::<i32>().ok()));
+        (rc, err)
+    }
+    // C04 / C06: the command xargs runs is the command as given (what the size limiters were charged for)
+    fn argv0_body() {
+        let depth = pick(2); // the directory on PATH: short, or about 1200 bytes long
+        let d = scratch("argv0");
+        let mut bin = d.join("bin");
+        if depth == 1 { for _ in 0..5 { bin = bin.join("p".repeat(240)); } }
+        std::fs::create_dir_all(&bin).unwrap();
+        std::os::unix::fs::symlink("/bin/sh", bin.join("verif-r7-sh")).unwrap();
+        let log = d.join("log");
+        let path = format!("{}:{}", bin.display(), std::env::var("PATH").unwrap_or_default());
+        let sc = format!("printf '%s' \"$0\" >> '{}'", log.display());
+        let (rc, err) = xargs_child(&["xargs", "-I{}", "verif-r7-sh", "-c", &sc], &path, b"x\n");
+        let got = std::fs::read_to_string(&log).unwrap_or_default();
+        let _ = std::fs::remove_dir_all(&d);
+        let ok = rc == Some(0) && got == "verif-r7-sh";
+        if !ok { eprintln!("  input a command given as the bare name verif-r7-sh, found through a PATH directory of {} bytes: the child saw argv[0] = {:?} (expected the name as given), exit {rc:?}; {}", bin.as_os_str().len(), got, err.lines().find(|l| l.contains("Error")).unwrap_or("")); }
+        assert!(ok, "each invocation begins with the unchanged command: argv[0] is the command as given, which is what the size limiters were charged for");
+    }
+    #[test] fn e_argv0_as_given() { kani::explore(argv0_body) }
+    // C19: a command is run and its outcome counted whatever it is called - also when it is called echo
+    fn echo_command_body() {
+        let case = pick(4); // the `echo` that PATH resolves to: none at all; exits 3; exits 255; exits 0
+        let with_arg = pick(2) == 1; // `xargs echo` / `xargs echo fixed`
+        let d = scratch("echocmd");
+        let bin = d.join("bin");
+        std::fs::create_dir_all(&bin).unwrap();
+        let log = d.join("log");
+        if case > 0 { script(&bin.join("echo"), &format!("#!/bin/sh\nprintf 'run\\n' >> '{}'\nexit {}\n", log.display(), [0, 3, 255, 0][case])); }
+        // /bin/sh for the shim's interpreter is given by absolute path; PATH holds nothing but the shim's directory
+        let mut args = vec!["xargs", "-n2", "echo"];
+        if with_arg { args.push("fixed"); }
+        let (rc, err) = xargs_child(&args, bin.to_str().unwrap(), b"a b c d\n");
+        let runs = std::fs::read_to_string(&log).unwrap_or_default().lines().count();
+        let _ = std::fs::remove_dir_all(&d);
+        let (want_rc, want_runs) = [(127, 0), (123, 2), (124, 1), (0, 2)][case];
+        if rc != Some(want_rc) || runs != want_runs {
+            eprintln!("  input printf 'a b c d\\n' | PATH=<a directory where echo {}> {}: exit {rc:?}, echo ran {runs} times (expected exit {want_rc}, {want_runs} runs); {}",
+                      ["does not exist", "is a script exiting 3", "is a script exiting 255", "is a script exiting 0"][case], args.join(" "), err.lines().find(|l| l.contains("Error")).unwrap_or(""));
+        }
+        assert!(runs == want_runs, "the command given is run for every batch (and no further after status 255), also when it is called echo");
+        assert!(rc == Some(want_rc), "xargs' exit status is the documented function of the command's outcomes");
+    }
+    #[test] fn e_echo_is_a_command() { kani::explore(echo_command_body) }
 }
